@@ -73,6 +73,10 @@ NumLaw(name, n, m, oi, os, aux) ==
       [] name = "range-0-n" -> os = [k \in 1..(n + 1) |-> k - 1]
       [] name = "range-1-n1" -> os = [k \in 1..(IF n = 0 THEN 0 ELSE n - 1) |-> k]
       [] name = "digitsum" -> oi = SumSeq(DecDigits(n))
+      [] name = "digitproduct" -> oi = Prod(DecDigits(n))                        \* product of the decimal digits
+      [] name = "reversed-number" -> oi = HornerN([k \in 1..Len(DecDigits(n)) |-> DecDigits(n)[Len(DecDigits(n)) - k + 1]], 10)
+      [] name = "product-0-n" -> oi = 0                                           \* 0 * 1 * ... * n
+      [] name = "product-1-n" -> oi = Prod([k \in 1..n |-> k])                   \* n!  (n <= 12)
       [] name = "digits" -> os = DecDigits(n)
       [] name = "issquare" -> oi = B(Isqrt(n) * Isqrt(n) = n)
       [] name = "identity" -> oi = n          \* inverse pairs: from-binary . binary, from-hex . hex, root . square, halve . double
